@@ -1,4 +1,5 @@
 import Uflow.Lemmas.PSend
+import Uflow.Lemmas.PRecvRun
 
 /-! # C06 — receiver memory bounded; senders respect the advertised limits (theorems being added) -/
 
@@ -29,5 +30,118 @@ theorem C06_emit_alloc_le (s s' : State) (f : Nat) (r : Option (Pending × Bool)
             obtain ⟨hs, _⟩ := h; subst hs
             simp only
             omega
+
+/-! ## Receiver (`Uflow.PRecv`, `packet_receiver` + `assembly_window`)
+
+The receiver is driven by an arbitrary (hostile) sequence of operations `PRecv.Op`
+(`dg d` = `handle_datagram` with any field values, `recv` = `receive`, `resync id` =
+`resynchronize` with any `id`) from `PRecv.init W b m`. Only `0 < W` and `b < 2^20` are needed
+(in the library `W` is a power of two `≤ 4096`). -/
+
+/-- Bytes charged to `alloc` for one assembly-window entry. -/
+def asmAlloc : PRecv.Asm → Nat
+  | .opened => 0
+  | .closed a => a
+  | .active a _ _ _ _ _ => a
+
+/-- The example script of the non-vacuity checks: a cross-channel-parent packet, a 3-fragment packet
+(with a duplicate fragment carrying different bytes), an over-limit claim `fragmentIdLast = 65535`,
+an invalid channel, a sequence id `≥ 2^32`, `recv`, `resync` with an id `≥ 2^20` and one in range.
+The window starts two ids before the 20-bit wrap-around. -/
+def exBase : Nat := 2^20 - 2
+
+def exFrag (k : Nat) (data : List Nat) : Codec.Datagram :=
+  { sequenceId := exBase, channelId := 5, windowParentLead := 0, channelParentLead := 0,
+    fragmentId := k, fragmentIdLast := 2, data := data }
+
+def exScript : List PRecv.Op :=
+  [ .dg { sequenceId := 0, channelId := 7, windowParentLead := 1, channelParentLead := 2,
+          fragmentId := 0, fragmentIdLast := 0, data := [1, 2, 3] },
+    .dg (exFrag 0 (List.replicate 1448 1)),
+    .dg (exFrag 2 (List.replicate 7 3)),
+    .dg (exFrag 0 (List.replicate 1448 4)),
+    .dg { sequenceId := exBase + 1, channelId := 9, windowParentLead := 0, channelParentLead := 0,
+          fragmentId := 0, fragmentIdLast := 65535, data := List.replicate 1448 9 },
+    .dg { sequenceId := 1, channelId := 64, windowParentLead := 0, channelParentLead := 0,
+          fragmentId := 0, fragmentIdLast := 0, data := [] },
+    .dg { sequenceId := 2^32 + 1, channelId := 3, windowParentLead := 0, channelParentLead := 0,
+          fragmentId := 0, fragmentIdLast := 0, data := [8] },
+    .dg (exFrag 1 (List.replicate 1448 2)),
+    .dg { sequenceId := 4, channelId := 3, windowParentLead := 2, channelParentLead := 0,
+          fragmentId := 0, fragmentIdLast := 0, data := [5, 5] },
+    .recv,
+    .resync (2^20 + 5),
+    .resync 4,
+    .recv ]
+
+/-- C06 (1): `alloc` is exactly the sum of the allocations of the assembly entries (the slot keys
+being distinct) and never exceeds the fragment-rounded limit. -/
+theorem C06_recv_alloc (W b m : Nat) (hW : 0 < W) (hb : b < 2^20) (ops : List PRecv.Op)
+    (s' : PRecv.State) (h : PRecv.run (PRecv.init W b m) ops = .ok s') :
+    s'.alloc = (s'.slots.map fun p => asmAlloc p.2.asm).sum ∧
+    (s'.slots.map (·.1)).Nodup ∧
+    s'.alloc ≤ s'.maxAlloc ∧ s'.maxAlloc = allocCeil m := by
+  obtain ⟨s1, h1, hinv⟩ := PRecv.run_init_inv W b m hW hb ops
+  rw [h1] at h
+  cases h
+  refine ⟨?_, hinv.nodup, ?_, hinv.mal⟩
+  · have : asmAlloc = PRecv.aAlloc := by funext a; cases a <;> rfl
+    rw [this]
+    exact hinv.aeq
+  · rw [hinv.mal]; exact hinv.ale
+
+/-- C06 (2): the bytes held (assembly buffers at their allocated size plus undelivered payloads) are
+within `alloc`, hence within `⌈m/1448⌉·1448`; a slot holding data is `closed a` with
+`data.length ≤ a`, and an `active` slot is charged `(last+1)·1448`. -/
+theorem C06_recv_held (W b m : Nat) (hW : 0 < W) (hb : b < 2^20) (ops : List PRecv.Op)
+    (s' : PRecv.State) (h : PRecv.run (PRecv.init W b m) ops = .ok s') :
+    PRecv.held s' ≤ s'.alloc ∧ s'.alloc ≤ allocCeil m ∧
+    (∀ p ∈ s'.slots, ∀ d, p.2.data = some d → ∃ a, p.2.asm = .closed a ∧ d.length ≤ a) ∧
+    (∀ p ∈ s'.slots, ∀ a chan wpl cpl last buf, p.2.asm = .active a chan wpl cpl last buf →
+      a = (last + 1) * 1448) := by
+  obtain ⟨s1, h1, hinv⟩ := PRecv.run_init_inv W b m hW hb ops
+  rw [h1] at h
+  cases h
+  refine ⟨hinv.held_le, hinv.ale, ?_, ?_⟩
+  · intro p hp d hd
+    have hs := hinv.slot_of_mem p hp
+    have hf : p.2.dataFlag = true := by
+      cases hb : p.2.dataFlag with
+      | true => rfl
+      | false => rw [hs.nodata hb] at hd; cases hd
+    obtain ⟨-, a, ha, hlen⟩ := hs.flagged hf
+    exact ⟨a, ha, hlen d hd⟩
+  · intro p hp a chan wpl cpl last buf ha
+    have hs := (hinv.slot_of_mem p hp).asm
+    rw [ha] at hs
+    exact hs.1
+
+/-- C06 (3): the receiver's tables do not grow: at most one stored slot per window index, 64 channels. -/
+theorem C06_recv_state_bounded (W b m : Nat) (hW : 0 < W) (hb : b < 2^20) (ops : List PRecv.Op)
+    (s' : PRecv.State) (h : PRecv.run (PRecv.init W b m) ops = .ok s') :
+    s'.slots.length ≤ W ∧ s'.chans.length = 64 ∧ s'.readyFlags.length = 64 := by
+  obtain ⟨s1, h1, hinv⟩ := PRecv.run_init_inv W b m hW hb ops
+  rw [h1] at h
+  cases h
+  exact ⟨hinv.slots_length_le, hinv.clen, hinv.rlen⟩
+
+/-- Non-vacuity: the hostile script runs (up to the completed 3-fragment packet, before `recv`) to a
+state that holds data, within the bounds. -/
+example : (match PRecv.run (PRecv.init 8 exBase 6000) (exScript.take 9) with
+    | .ok s' => decide (0 < PRecv.held s' ∧ PRecv.held s' ≤ s'.alloc ∧ s'.alloc ≤ allocCeil 6000 ∧
+        s'.alloc = (s'.slots.map fun p => asmAlloc p.2.asm).sum ∧ s'.slots.length ≤ 8)
+    | .error _ => false) = true := by decide +kernel
+
+/-- Non-vacuity: the whole script. -/
+example : (match PRecv.run (PRecv.init 8 exBase 6000) exScript with
+    | .ok s' => decide (PRecv.held s' ≤ s'.alloc ∧ s'.alloc ≤ allocCeil 6000 ∧
+        s'.alloc = (s'.slots.map fun p => asmAlloc p.2.asm).sum ∧ s'.slots.length ≤ 8 ∧
+        s'.chans.length = 64 ∧ s'.readyFlags.length = 64)
+    | .error _ => false) = true := by decide +kernel
+
+/-- Non-vacuity of the hypotheses of the three theorems (`8` is a power of two `≤ 4096`). -/
+example : ∃ s', PRecv.run (PRecv.init 8 exBase 6000) exScript = .ok s' ∧ (0 : Nat) < 8 ∧ exBase < 2^20 := by
+  obtain ⟨s', h, -⟩ := PRecv.run_init_inv 8 exBase 6000 (by decide) (by decide) exScript
+  exact ⟨s', h, by decide, by decide⟩
 
 end Uflow.Props.C06
